@@ -920,6 +920,124 @@ def history_work(args):
     return idx, rq, rl, fails, st
 
 
+# --------------------------------------------------------------------------- duplicate-class stream (C13, C15)
+# One Analysis may hold DEX files that define the SAME class name (legal in an APK; also the same DEX
+# parsed twice).  Which copy "wins" in Analysis.classes is the code's business (the later add shadows the
+# earlier one) and outside the key-based Lean model, so this stream is oracle-only and judges the part of
+# C13 / C15 that does not depend on the winner, on OBJECTS (no names involved):
+#   * for every MethodAnalysis the analysis holds: each callee it reports lists it as caller at that
+#     offset, and each caller listed reports the callee (from mirrors to);
+#   * the call graph built with no filters has an edge exactly where some held MethodAnalysis reports a callee;
+#   * every (method, offset) a class / string reports for new-instance, const-class, const-string is
+#     reported back by that method resp. is an instruction site (mirror of the class-side and method-side lists).
+
+def gen_dup_program(rng):
+    """-> (prog, adds): adds = list of DEX indices to add, in order (an index may repeat: same DEX parsed twice)"""
+    import copy
+    prog = gen_program(rng)
+    while len(prog) < 2:
+        prog = gen_program(rng)
+    for d in prog:
+        d.pop("layout", None) if rng.random() < 0.5 else None
+    kind = rng.choice(("identical-copy", "different-body", "same-dex-twice"))
+    adds = list(range(len(prog)))
+    if kind == "same-dex-twice":
+        adds.append(rng.randrange(len(prog)))
+    else:
+        i, j = rng.sample(range(len(prog)), 2)
+        src = rng.choice(prog[i]["classes"])
+        have = {c["name"] for c in prog[j]["classes"]}
+        if src["name"] not in have:
+            if kind == "identical-copy":
+                prog[j]["classes"].append(copy.deepcopy(src))
+            else:
+                donors = [c for d in prog for c in d["classes"] if c["name"] != src["name"]]
+                body = copy.deepcopy(rng.choice(donors)) if donors else copy.deepcopy(src)
+                body["name"] = src["name"]
+                prog[j]["classes"].append(body)
+    rng.shuffle(adds)
+    return prog, adds, kind
+
+
+def dup_work(args):
+    prop, idx, prog, adds, kind = args
+    case = {"prog": prog, "adds": adds, "duplicate": kind}
+    st = {"duplicate_class_cases": 1, "duplicate_" + kind.replace("-", "_"): 1}
+    try:
+        built = [build_dex(d)[0] for d in prog]
+        vms = load_vms([built[i] for i in adds])       # one DEX object per add, also for a repeated index
+        dx = analyse_real(vms)
+        fails = dup_check(dx, prop)
+    except Exception as e:  # noqa
+        return idx, [(case, "the analysis raises " + type(e).__name__ + " on DEX files that share a class name", None,
+                      "a finished analysis", str(e)[:200])], st
+    st["duplicate_shadowed_methods_with_callees"] = fails.pop() if fails and isinstance(fails[-1], int) else 0
+    return idx, [(case, what, None, rel, detail) for what, rel, detail in fails[:3]], st
+
+
+def dup_check(dx, prop):
+    """object-level mirror / call-graph conditions; the last element of the result is a statistic (int)"""
+    out = []
+    mas = list(dx.methods.values())
+    nm = lambda ma: mkey(ma.get_method())
+    # statistic: methods of a shadowed class copy (not the copy Analysis.classes holds) that report callees
+    shadowed = 0
+    for vm in dx.vms:
+        for c in vm.get_classes():
+            ca = dx.classes.get(c.get_name())
+            if ca is not None and ca.get_vm_class() is not c:
+                shadowed += sum(1 for m in c.get_methods() if dx.get_method(m) is not None and dx.get_method(m).get_xref_to())
+    if prop == "C13":
+        held = {id(ma) for ma in mas}
+        edges = set()
+        for ma in mas:
+            for _, callee, off in ma.get_xref_to():
+                if id(callee) not in held:
+                    out.append(("a reported callee is a MethodAnalysis the analysis does not hold", "held", [nm(ma), nm(callee), off]))
+                if not any(c is ma and o == off for _, c, o in callee.get_xref_from()):
+                    out.append(("a reported callee does not list the caller in its caller list", "mirror", [nm(ma), nm(callee), off]))
+                edges.add((id(ma.get_method()), id(callee.get_method())))
+            for _, caller, off in ma.get_xref_from():
+                if not any(c is ma and o == off for _, c, o in caller.get_xref_to()):
+                    out.append(("a listed caller does not report the callee", "mirror", [nm(caller), nm(ma), off]))
+        cg = dx.get_call_graph()
+        got = {(id(a), id(b)) for a, b in cg.edges()}
+        names = {id(ma.get_method()): nm(ma) for ma in mas}
+        for e in sorted(edges - got, key=repr)[:2]:
+            out.append(("a callee is reported but the call graph has no such edge", "cg", [names.get(e[0]), names.get(e[1])]))
+        for e in sorted(got - edges, key=repr)[:2]:
+            out.append(("the call graph has an edge where no callee is reported", "cg", [names.get(e[0]), names.get(e[1])]))
+    if prop == "C15":
+        for ma in mas:
+            for ca, off in ma.get_xref_new_instance():
+                if not any(m is ma and o == off for m, o in ca.get_xref_new_instance()):
+                    out.append(("a method's new-instance entry is missing from the class's instantiation list", "newInst", [nm(ma), ca.name, off]))
+            for ca, off in ma.get_xref_const_class():
+                if not any(m is ma and o == off for m, o in ca.get_xref_const_class()):
+                    out.append(("a method's const-class entry is missing from the class's class-reference list", "constCls", [nm(ma), ca.name, off]))
+        held = {id(ma) for ma in mas}
+        for ca in dx.classes.values():
+            for m, off in list(ca.get_xref_new_instance()) + list(ca.get_xref_const_class()):
+                if id(m) not in held or not any(c is ca and o == off for c, o in list(m.get_xref_new_instance()) + list(m.get_xref_const_class())):
+                    out.append(("a class lists a usage its method does not report", "classuse", [ca.name, nm(m), off]))
+        # every const-string site of every added method is in the xrefs of the string it loads, nothing else
+        from harness import xref_oracle as O
+        want = set()
+        for vm in dx.vms:
+            for c in vm.get_classes():
+                for m in c.get_methods():
+                    ma = dx.get_method(m)
+                    for off, ins in m.get_instructions_idx():
+                        if ins.get_op_value() in O.CONST_STRING:
+                            want.add((vm.get_cm_string(ins.get_ref_kind()), id(ma), off))
+        got = {(s_, id(m), off) for s_, sa in dx.strings.items() for _, m, off in sa.get_xref_from(True)}
+        if want != got:
+            out.append(("string xrefs are not exactly the const-string instructions", "strFrom",
+                        {"missing": len(want - got), "unexpected": len(got - want)}))
+    out.append(shadowed)
+    return out
+
+
 # probes of histories the random stream does not generate; each is one fixed case with a precise key
 def history_probes():
     def m(name, code):
@@ -968,7 +1086,7 @@ def load_corpus_full(prop):
 
 
 def load_corpus(prop):
-    return [(fn, c["prog"]) for fn, c in load_corpus_full(prop) if "history" not in c]
+    return [(fn, c["prog"]) for fn, c in load_corpus_full(prop) if "history" not in c and "adds" not in c]
 
 
 def shipped_cases(repo, quick):
@@ -1083,6 +1201,15 @@ def run_property(ck, prop):
                 hcases.append(("hist:%d" % i, hp, od, hh))
         hres = pool.map(history_work, [(prop, i, p, od, hh) for i, (_, p, od, hh) in enumerate(hcases)], chunksize=8)
         pres = pool.map(probe_work, history_probes(), chunksize=1) if prop == "C13" else []
+        ndup = 0 if prop not in ("C13", "C15") else (4000 if big else 400)
+        dcases = []
+        for fn, cp in load_corpus_full(prop):
+            if "adds" in cp:
+                dcases.append(("corpus:" + fn, cp["prog"], cp["adds"], cp.get("duplicate", "corpus")))
+        for i in range(ndup):
+            dp, da, dk = gen_dup_program(ck.rng)
+            dcases.append(("dup:%d" % i, dp, da, dk))
+        dres = pool.map(dup_work, [(prop, i, p_, a_, k_) for i, (_, p_, a_, k_) in enumerate(dcases)], chunksize=8)
     for idx, rq, rl, fails, st, nv in results:
         for a, b in zip(rq, rl):
             reqs.append(a); real.append(b)
@@ -1110,6 +1237,15 @@ def run_property(ck, prop):
             ck.fail(dict(case, name=hcases[idx][0]), what, key, exp, obs)
         for k, v in st.items():
             dist[k] = dist.get(k, 0) + v
+    for idx, fails, st in dres:
+        nviews += 1
+        for case, what, key, exp, obs in fails:
+            ck.fail(dict(case, name=dcases[idx][0]), what + " (DEX files sharing a class name)", key, exp, obs)
+        for k, v in st.items():
+            dist[k] = dist.get(k, 0) + v
+    if dres:
+        ck.partial.append("the duplicate-class stream (one Analysis holding DEX files that define the same class name, or the same "
+                          "DEX twice) is judged by the object-level oracle only; the key-based Lean model does not cover it")
     for fl_ in pres:
         nviews += 1
         dist["history_probes"] = dist.get("history_probes", 0) + 1
@@ -1153,7 +1289,13 @@ def replay_case(ck, rp, prop):
     from harness import xref_oracle as O
     c = rp.get("case") or rp.get("first_divergence", {}).get("case") or {}
     print("replay", {k: v for k, v in c.items() if k != "prog"})
-    if "prog" in c and "history" in c:
+    if "prog" in c and "adds" in c:
+        print("duplicate-class case:", c.get("duplicate"), "adds", c["adds"])
+        r = dup_work((prop, 0, c["prog"], c["adds"], c.get("duplicate", "corpus")))
+        for f in r[1]:
+            print("  ", f[1], f[3], f[4])
+        print("  statistics:", r[2])
+    elif "prog" in c and "history" in c:
         print("history (renames):", c["history"], "add order", c.get("order"))
         out = history_run(c["prog"], c.get("order", list(range(len(c["prog"])))), c["history"])
         if out[0] == "exc":
